@@ -1358,6 +1358,22 @@ def _g1_feed(ctx: Context, m: _Parser) -> None:
             if result_of(t, al):
                 gates += ctx.edges(cfg, tn, empty)
         wit = _path_from(cfg, n.id, {cfg.exit.id}, avoid_edges=gates)
+        if wit is not None:
+            # the way out may be the "message not complete yet" outcome of the parser's own completion predicate: whether the
+            # parser then has kept everything (and handed back nothing) is a fact about parse(), not about this loop
+            inc_edges = []
+            for tn in cfg.nodes:
+                if tn.kind == "test":
+                    tt = strip_sites(T.of(cfg, tn, tn.exprs[0]))
+                    neg = False
+                    while tt[0] == "unop" and tt[1] == "Not":
+                        tt, neg = tt[2], not neg
+                    if tt[0] == "call" and tt[1][0] == "attr" and tt[1][2] == "is_read_completely":
+                        inc_edges += ctx.edges(cfg, tn, "T" if neg else "F")
+            if inc_edges and _path_from(cfg, n.id, {cfg.exit.id}, avoid_edges=gates + inc_edges) is None:
+                ck.unknown(R, "data_received leaves the loop on the `not is_read_completely()` outcome without looking at the leftover: whether parse() hands back nothing for an "
+                              "incomplete message is a property of parse() that this obligation does not use - not decided", ctx.loc(f, n))
+                continue
         ck.check(
             R,
             wit is None,
